@@ -117,6 +117,47 @@ def property_on_impl(m, maxseg_lambda=None):
     return None
 
 
+def big_request_clause(m):
+    """a row of the table is a function of its own direction: a request with very many zenith angles (more than
+    a million direction x pulse terms in one call, as for a 0.01 degree elevation cut) gives the rows a small
+    request gives.  Block-wise or chunked evaluation, index arithmetic that overflows and caches keyed by a
+    table position show only at such sizes."""
+    N = len(m.pulses)
+    nz = int(min(40001, max(2001, math.ceil(1.3e6 / max(N, 1)))))
+    if m.media:
+        zs = [90.0 * i / (nz - 1) for i in range(nz)]
+    else:
+        zs = [180.0 * i / (nz - 1) for i in range(nz)]
+    phs = [33.0, 213.0]
+    m.compute_far_field(farlib.DirAngles(zs), farlib.DirAngles(phs))
+    ff = m.far_field
+    if ff.gain.shape[0] != nz or ff.gain.shape[1] != 2:
+        return 'a request of %d zenith x 2 azimuth angles gives a table of shape %r' % (nz, ff.gain.shape[:2])
+    pick = sorted(set([0, 1, nz // 7, nz // 3, nz // 2, (2 * nz) // 3, nz - 2, nz - 1] + [int(nz * k / 13) for k in range(1, 13)]))
+    big = {(zs[i], ph): ([float(x) for x in ff.gain[i][pi]], complex(ff.e_theta[pi][i]), complex(ff.e_phi[pi][i]))
+           for i in pick for pi, ph in enumerate(phs)}
+    small = farlib.impl_far(m, [zs[i] for i in pick], phs)
+    emax = max(max(abs(v['e_theta']), abs(v['e_phi'])) for v in small.values()) or 1e-300
+    for k, (g, et, ep) in big.items():
+        sm = small[k]
+        if abs(et - sm['e_theta']) > 1e-9 * emax or abs(ep - sm['e_phi']) > 1e-9 * emax:
+            return ('the row for zenith %.6g azimuth %g depends on the size of the request: E = (%r, %r) in a table of %d zenith '
+                    'angles, (%r, %r) when asked for alone (%d pulses)' % (k[0], k[1], et, ep, nz, sm['e_theta'], sm['e_phi'], N))
+    return None
+
+
+def long_wire(rng):
+    """a structure with many pulses: skew wire of several wavelengths, 1/20 wavelength segments"""
+    f = 10 ** rng.uniform(0.8, 1.8)
+    lam = antgen.C / f
+    n = rng.randint(130, 170)
+    seg = lam / 20
+    d = antgen.rand_dir(rng)
+    c = np.array([rng.uniform(-1, 1), rng.uniform(-1, 1), 0.0]) * lam
+    return dict(f=f, ground=False, family='longwire', lam=lam, seg=seg,
+                wires=[dict(nseg=n, p0=[float(x) for x in c - d * seg * n / 2], p1=[float(x) for x in c + d * seg * n / 2], r=seg / 40)])
+
+
 def integral_clause(m):
     """2 % clause: exact integral vs point moments, relative to the pattern maximum (|G| scale)"""
     worst = 0.0
@@ -155,7 +196,7 @@ def replay(rp):
     m = antgen.build(rp['ant'])
     antgen.pick_sources(rng, m)
     m.compute()
-    bad = property_on_impl(m) or integral_bad(m, rp['ant'])[0]
+    bad = property_on_impl(m) or integral_bad(m, rp['ant'])[0] or big_request_clause(m)
     print('replay ->', bad or 'property holds')
     return 1 if bad else 0
 
@@ -168,7 +209,8 @@ def run(ck):
     dis, viol = [], []
     worst_int = 0.0
     for i in range(n):
-        ant = antgen.gen_antenna(rng, max_pulses=18 if ck.tier == 'quick' else 60)
+        big = (i == 3) or (i % 100 == 53)
+        ant = long_wire(rng) if big else antgen.gen_antenna(rng, max_pulses=18 if ck.tier == 'quick' else 60)
         m = antgen.build(ant)
         ss = rng.randrange(10 ** 9)
         antgen.pick_sources(random.Random(ss), m)
@@ -185,6 +227,9 @@ def run(ck):
             dis.append(dict(ant=ant, src_seed=ss, why=why))
             continue
         bad = property_on_impl(m)
+        if not bad and (i < 8 or i % 10 == 3):
+            bad = big_request_clause(m)
+            ck.count('big_request_cases')
         if bad:
             viol.append(dict(kind='far', ant=ant, src_seed=ss, observed=bad))
         ib, w = integral_bad(m, ant)
@@ -197,7 +242,8 @@ def run(ck):
     ck.stats['worst_exact_integral_deviation'] = worst_int
     ck.cov['rule'] = ('antennas from the shared generator (10 families, free space and ideal ground), 1-3 complex sources, 5 zenith x 6 '
                       'azimuth angles incl. 0, 90, +-360 shifts; compared: e_theta, e_phi, three gains at 1e-9 of the maximum; '
-                      'distinct = distinct (family, ground, pulses)')
+                      'distinct = distinct (family, ground, pulses); one structure of 130-170 pulses; for the first cases a request of 2001-40001 zenith angles '
+                      '(> 1.3e6 direction x pulse terms) whose rows must equal those of a small request')
     ck.assumptions += ['np.e ** (-1j x) vs cos/sin, complex sqrt/division of numpy vs the model differ in the last bits (rtol 1e-9)',
                        'the 2 % exact-integral clause is sampled (closed-form sinc integral in the harness), not proved']
     seen = set()
